@@ -135,6 +135,61 @@ func newScenarioInst(c *xs.Ctx, sc schedScenario) *scenarioInst {
 	oldID := ref.stack[1]
 	oldContent := ref.versions[1]
 	obs := make([][]snapshotObs, 4) // one slice per thread: the bodies share nothing but the manager
+	// ... and one narrowed view of the old commit that both historical readers use at the same time (a store handed to
+	// several goroutines, e.g. an account store inside a momentum store served to RPC handlers). Its prefix has spare
+	// capacity, as prefixes built with append have.
+	sharedPrefix := append(make([]byte, 0, 16), 0x10)
+	var shared db.DB
+	if v := mgr.Get(oldID); v != nil {
+		shared = v.Subset(sharedPrefix)
+	}
+	oldSub := restrict(oldContent, []byte{0x10})
+	readShared := func() string {
+		if shared == nil {
+			return "nil-view"
+		}
+		var parts []string
+		for _, k := range [][]byte{{}, {0x11}, {0x11, 0x12}, {0x13}} {
+			v, err := shared.Get(k)
+			has, _ := shared.Has(k)
+			if err == leveldb.ErrNotFound {
+				parts = append(parts, fmt.Sprintf("%x:-/%v", k, has))
+			} else if err != nil {
+				parts = append(parts, fmt.Sprintf("%x:err", k))
+			} else {
+				parts = append(parts, fmt.Sprintf("%x:%x/%v", k, v, has))
+			}
+		}
+		it := shared.NewIterator([]byte{0x11})
+		for it.Next() {
+			if it.Value() != nil {
+				parts = append(parts, fmt.Sprintf("scan %x=%x", it.Key(), it.Value()))
+			}
+		}
+		it.Release()
+		return strings.Join(parts, ",")
+	}
+	wantShared := func() string {
+		var parts []string
+		for _, k := range [][]byte{{}, {0x11}, {0x11, 0x12}, {0x13}} {
+			if v, ok := oldSub[string(k)]; ok {
+				parts = append(parts, fmt.Sprintf("%x:%x/true", k, v))
+			} else {
+				parts = append(parts, fmt.Sprintf("%x:-/false", k))
+			}
+		}
+		var ks []string
+		for k := range oldSub {
+			if bytes.HasPrefix([]byte(k), []byte{0x11}) {
+				ks = append(ks, k)
+			}
+		}
+		sort.Strings(ks)
+		for _, k := range ks {
+			parts = append(parts, fmt.Sprintf("scan %x=%x", k, oldSub[k]))
+		}
+		return strings.Join(parts, ",")
+	}()
 	in := &scenarioInst{dir: dir, mgr: mgr, names: []string{"writer", "reader-old", "reader-old-late", "reader-frontier"}}
 	in.bodies = []func(){
 		func() {
@@ -159,6 +214,7 @@ func newScenarioInst(c *xs.Ctx, sc schedScenario) *scenarioInst {
 					continue
 				}
 				obs[1] = append(obs[1], snapshotObs{"old", oldID, readAll(v)})
+				obs[1] = append(obs[1], snapshotObs{"shared", oldID, readShared()})
 			}
 		},
 		// a second historical reader with a single late read: together with reader-old it makes "one reader warms the
@@ -170,6 +226,7 @@ func newScenarioInst(c *xs.Ctx, sc schedScenario) *scenarioInst {
 				return
 			}
 			obs[2] = append(obs[2], snapshotObs{"old", oldID, readAll(v)})
+			obs[2] = append(obs[2], snapshotObs{"shared", oldID, readShared()})
 		},
 		func() {
 			for i := 0; i < 2; i++ {
@@ -188,6 +245,10 @@ func newScenarioInst(c *xs.Ctx, sc schedScenario) *scenarioInst {
 				case "old":
 					if want := refReads(oldContent); o.reads != want {
 						r.Violate("C07:sched:"+name+":historical-view-wrong", fmt.Sprintf("view at commit %v read %s, want %s", o.id, o.reads, want), rep)
+					}
+				case "shared":
+					if o.reads != wantShared {
+						r.Violate("C07:sched:"+name+":shared-subset-view-wrong", fmt.Sprintf("narrowed view (prefix 10) of commit %v used by two readers read %s, want %s", o.id, o.reads, wantShared), rep)
 					}
 				case "frontier":
 					byIDMu.Lock()
